@@ -274,6 +274,10 @@ func (ck *Checker) collect() {
 				m.Asserts = append(append([]*Clause{}, sc.Asserts...), own.Asserts...)
 				m.LoopInv = own.LoopInv
 				m.LoopVar = own.LoopVar
+				m.Uses = append(append([]string{}, sc.Uses...), own.Uses...)
+				if own.SlotOf != nil {
+					m.SlotOf = own.SlotOf
+				}
 				m.Ensures = append(append([]*Clause{}, sc.Ensures...), own.Ensures...)
 				m.Props = append(append([]string{}, sc.Props...), own.Props...)
 				use = &m
